@@ -490,6 +490,7 @@ func TestC03(t *testing.T) {
 					try(&C03Case{Data: ast.BS(stream), Chunks: chunks, FailAt: k, FailData: true, Prog: prog, What: fmt.Sprintf("read error delivered with the bytes up to %d", k)}, "read-error-with-data")
 				}
 				try(&C03Case{Data: ast.BS(stream), Chunks: chunks, FailAt: k, Transient: true, Prog: prog, What: fmt.Sprintf("one-off read error at byte %d (the reader recovers)", k)}, "read-error-transient")
+				try(&C03Case{Data: ast.BS(stream), Chunks: chunks, FailAt: k, FailData: true, Transient: true, Prog: prog, What: fmt.Sprintf("one-off read error delivered with the bytes up to %d (the reader recovers)", k)}, "read-error-transient-with-data")
 			}
 			rec.Label("positions-enumerated")
 		} else {
